@@ -1633,6 +1633,20 @@ pub fn generate(seed: u64, run: u64, prop: &str) -> Generated {
             let disc = if !sets.is_empty() && (others.is_empty() || rca.chance(0.7)) { sets } else { others };
             if disc.is_empty() { continue; }
             let (qd, v1, v2) = disc[rca.usize(disc.len())].clone();
+            // a nullable column compared with something its whole declared range satisfies: only a
+            // NULL takes the ELSE branch
+            let always: Vec<String> = cols.iter().filter(|(qd, cd)| !is_id(qd) && cd.optional).filter_map(|(qd, cd)| match &cd.ty {
+                ColType::IntRange { lo, .. } => Some(format!("{} > {}", qd, lo - 1)),
+                ColType::FloatRange { lo, .. } => Some(format!("{} >= {:?}", qd, lo - 0.5)),
+                _ => None,
+            }).collect();
+            if !always.is_empty() && rca.chance(0.3) {
+                let cond = always[rca.usize(always.len())].clone();
+                a.arg = if rca.chance(0.5) { format!("CASE WHEN {} THEN 1 ELSE 5 END", cond) } else { format!("CASE WHEN {} THEN 0 ELSE {} END", cond, q) };
+                a.scale = m.max(5.0);
+                used.push("else_for_null_only");
+                continue;
+            }
             let (expr, scale, name) = match rca.below(5) {
                 0 => (format!("CASE WHEN {} = {} THEN 1 ELSE 0 END", qd, v1), 1.0, "count_eq"),
                 1 => (format!("CASE WHEN {} = {} THEN {} ELSE 0 END", qd, v2, q), m, "sum_eq"),
